@@ -20,7 +20,7 @@ type Profile struct {
 
 func ProfileSyntax() *Profile {
 	return &Profile{
-		Idents:   []string{"a", "b", "c", "x1", "_", "_v", "msg", "é", "a b", "1x", "if", "IN", "ü_1", "注"},
+		Idents:   []string{"a", "b", "c", "x1", "_", "_v", "msg", "é", "a b", "1x", "if", "IN", "ü_1", "注", "\ufeffa", "\ufeff", "\u200bq", "\U0001F600"},
 		Funcs:    []string{"f", "g", "len", "add_key", "my fn"},
 		Strs:     []string{"", "a", "ab", "a\"b", "it's", "é", "\n", "\\", "#", "x y", "\x00", "k"},
 		MaxDepth: 5,
